@@ -3,6 +3,7 @@ import FGVerif.Proofs.C12Forest
 #print axioms C12.spec_holds
 #print axioms C12.only_adds_hydrogens
 #print axioms C12.fresh_ids
+#print axioms C12.new_ids_above
 #print axioms C12.count
 #print axioms C12.idempotent
 #print axioms C12.wf_preserved
